@@ -178,6 +178,53 @@ def view_root(fd, op, stop=None):
     return None
 
 
+def flag_truth_table(ctx, key, fd, site, cm, new_nodes):
+    """the visits-maintenance flag handed to new_precomputed, as a function of (old flag, 'the removed nodes contain a slot',
+    'the remaining nodes contain a slot'[, 'the inserted path contains a slot']): abstract interpretation of all paths"""
+    from .. import optabs
+    o = ctx.ob("R3.%s.visits-maintenance-truth-table" % common.short(key), "T1+abs", key,
+               "%s: new flag = [inserted path has a slot or] old flag and (no slot removed or a slot remains)" % common.short(key))
+    o.loc = site.line()
+    scans = [c for c in fd.body.calls() if is_maintenance_scan(fd, c)]
+    B = [c for c in scans if view_root(fd, c.args[0], stop=new_nodes) == new_nodes]
+    rest = [c for c in scans if c not in B]
+    # the inserted path's own scan (insert_path): the one whose sequence derives from the path parameter
+    C = [c for c in rest if any(x.startswith("solution::path::Path::") for x in direct_chain(fd, c.args[0]))]
+    A = [c for c in rest if c not in C]
+    if len(B) != 1 or len(A) != 1 or len(C) > 1:
+        ctx.undecided(o, "the scans over removed / remaining nodes are not in a recognised place (%d/%d/%d)" % (len(A), len(B), len(C)))
+        return
+    vi = cm["visits_maintenance"] - 1
+    bad, und = [], []
+    for c_ in (("T", "F") if C else (None,)):
+        for v in "TF":
+            for a in "TF":
+                for b in "TF":
+                    src = {A[0].id: a, B[0].id: b}
+                    if C:
+                        src[C[0].id] = c_
+                    it = optabs.OptInterp(fd.body, src)
+                    it.field_values = {field(TOUR, "visits_maintenance"): v}
+                    it.probes = {site.id: vi}
+                    it.run()
+                    got = {r["probe"].get(site.id) for r in it.records if site.id in r["probe"]}
+                    if v == "T" and a == "F" and b == "F":
+                        continue        # cannot happen: a visited slot is either removed or remains
+                    want = "T" if (c_ == "T" or (v == "T" and (a == "F" or b == "T"))) else "F"
+                    case = "%sold flag %s, slot removed %s, slot remains %s" % (
+                        ("path has a slot %s, " % c_) if C else "", v, a, b)
+                    if not got or got - {"T", "F"}:
+                        und.append(case)
+                    elif got != {want}:
+                        bad.append("%s => flag %s (must be %s)" % (case, "/".join(sorted(got)), want))
+    if bad:
+        ctx.bad(o, "; ".join(bad[:3]) + ": the maintenance counter of the tour loses or keeps its allowance wrongly", loc=site.line())
+    elif und:
+        ctx.undecided(o, "not decided for: %s" % "; ".join(und[:2]))
+    else:
+        ctx.ok(o, "all %d reachable cases as documented" % (14 if C else 7))
+
+
 def recomputed_from_new_nodes(ctx):
     """whatever is recomputed from scratch, or scanned for maintenance, is computed on the NEW node sequence"""
     cm = prov.ctor_map(ctx.prog, common.TOUR_PRE, TOUR)
@@ -234,6 +281,7 @@ def recomputed_from_new_nodes(ctx):
                             if r is not None and 1 <= r <= f2.body.argc and r - 1 < len(i2.args) \
                                     and view_root(fd, i2.args[r - 1], stop=new_nodes) == new_nodes:
                                 scans.append(c2)
+        flag_truth_table(ctx, key, fd, site[0], cm, new_nodes)
         ctx.decide(o, bool(scans), "an is_maintenance scan over the new node vector feeds the flag",
                    "the visits-maintenance flag of the new tour does not look at the remaining nodes: removing/displacing one of two "
                    "maintenance slots clears (or keeps) the flag wrongly", loc=site[0].line())
